@@ -48,6 +48,12 @@ def r1(ctx):
     # the matcher is alive: alloc_utils.c itself must show the references (positive control), and out-of-scope units are listed
     ctl = sum(1 for (unit, gname), g in pdb.uglobals.items() if unit == AU and isinstance(g.get("init"), dict) and g["init"].get("ref") in LIBC)
     ctx.floor("C18.R1", ctl, 3)
+    # inside the wrapper unit the libc allocators are only the initial values of the three pointers: a direct call would hand out
+    # (or take back) memory behind the configured allocator's back
+    direct = [(f, i) for f in pdb.all_functions() if f.unit == AU for i in f.calls() if i.callee in LIBC]
+    ctx.check(not direct, "C18.R1", "alloc_utils:no-direct-libc-call", (direct[0][1].loc() if direct else AU),
+              ("%s calls libc %s directly" % (direct[0][0].name, direct[0][1].callee)) if direct else
+              "no function of the wrapper unit calls a libc allocator directly", key="C18.R1:alloc_utils:direct")
     if not any(o["rule"] == "C18.R1" and o["verdict"] != "holds" for o in ctx.obls):
         ctx.ok("C18.R1", "libc-allocators-only-in-alloc_utils", AU, "%d units in scope; positive control: %d function-pointer initialisers found in alloc_utils.c" % (len(SCOPE), ctl))
     for x in info:
